@@ -3265,6 +3265,10 @@ static void MakeCode_Z80(void) {
 static void InitCode_Z80(void) {
     SetFlag(&ExtFlag, ExtFlagName, False);
     SetFlag(&LWordFlag, LWordFlagName, False);
+
+    /* a DDIR as last instruction of the previous pass/source must not reach the first instruction */
+
+    CurrPrefix = LastPrefix = Pref_IN_N;
 }
 
 static Boolean IsDef_Z80(void) {
